@@ -16,6 +16,70 @@ from ..flow import Domain, Walker
 from ..tables import rule, VAR_CARRIERS, SCHEMA_COLUMNS
 from . import analysis
 
+def _series_alignment(ctx):
+    from .spaces import Typer
+    p = ctx.p
+    n_e = n_f = 0
+    for fn in sorted(p.all_functions(), key=lambda f: f.qualname):
+        if fn.parent is not None:
+            continue
+        ty = None
+        for st in au.walk_stmts(fn.body):
+            # ---- C07.ae
+            if isinstance(st, ast.Assign) and len(st.targets) == 1 and isinstance(st.targets[0], ast.Subscript) and au.const_str(st.targets[0].slice) is not None:
+                v = ctx.resolve(fn, st.value, st)
+                ser = v if (isinstance(v, ast.Call) and au.method_name(v) == "Series" and au.kwarg(v, "index") is None) else None
+                if ser is not None and not (ser.args and isinstance(ser.args[0], ast.Dict)):
+                    ty = ty or Typer(ctx, fn)
+                    if ty.is_mapping(st.targets[0].value, st):
+                        n_e += 1
+                        ctx.ob("C07.ae", fn, au.short(st, 80), False,
+                               "%s is a new Series with the default index 0..n-1; assigned to a column of %s it is aligned by index label, not by position. The "
+                               "labels of a mapping are variable numbers - a transport has two rows per variable, a coarse asset one per fine step - so a row "
+                               "gets the value that belongs to the row at position <its variable number> (split optimisation with a transport: the dispatch of "
+                               "the next asset is reported at the wrong time steps, node B is off by 5)" % (au.short(ser, 50), au.short(st.targets[0].value, 30)), node=st)
+            # ---- C07.af
+            for c in au.walk_own(st):
+                if isinstance(c, ast.Call) and au.method_name(c) == "concat":
+                    ig = au.kwarg(c, "ignore_index")
+                    if not (isinstance(ig, ast.Constant) and ig.value is True) or not c.args:
+                        continue
+                    ty = ty or Typer(ctx, fn)
+                    a0 = c.args[0]
+                    parts = []
+                    todo = [a0]
+                    while todo:
+                        e = todo.pop()
+                        if isinstance(e, ast.IfExp):
+                            todo += [e.body, e.orelse]
+                        elif isinstance(e, (ast.List, ast.Tuple)):
+                            todo += list(e.elts)
+                        elif isinstance(e, ast.Name):
+                            parts.append(e)
+                            # a list local: what is appended to it / comprehended into it
+                            for s2 in au.walk_stmts(fn.body):
+                                for x in au.walk_own(s2):
+                                    if isinstance(x, ast.Call) and au.method_name(x) == "append" and isinstance(x.func, ast.Attribute) and au.U(x.func.value) == e.id and x.args:
+                                        parts.append(x.args[0])
+                            for d in ctx.flow(fn).defs(e.id, st):
+                                if d.kind == "assign" and isinstance(d.value, ast.ListComp):
+                                    for g in d.value.generators:
+                                        todo.append(g.iter)
+                        else:
+                            parts.append(e)
+                    is_map = any(ty.is_mapping(x, st) for x in parts)
+                    if is_map:
+                        n_f += 1
+                        ctx.ob("C07.af", fn, au.short(c, 80), False,
+                               "the mapping frames are concatenated with ignore_index=True: the labels - variable numbers, shifted per interval / per asset - are "
+                               "replaced by row positions. As soon as some variable has two rows (transport, coarse frequency, order book) every later row "
+                               "points to the wrong variable: the steps of a fixed window are looked up in this mapping, the wrong variables are pinned", node=c)
+    if n_e == 0:
+        ctx.ob("C07.ae", "package", "Series assigned to mapping columns", True, ok_detail="no fresh Series is assigned to a column of a mapping")
+    if n_f == 0:
+        ctx.ob("C07.af", "package", "concatenation of mapping frames", True, ok_detail="no concat(..., ignore_index=True) over mapping frames")
+
+
 rule("C07.w", "rows of merged / deleted variables are re-labelled through the *labels* of those variables (every row that carries the label, "
               "whichever group it belongs to), not through a mask over the rows of the current group", floor=1)
 rule("C07.f", "after per-variable carriers are shrunk with np.delete the mapping labels are renumbered (the labels set on the "
@@ -127,8 +191,18 @@ class _FramesWalker(Walker):
         return super().s_For(node, s)
 
 
-@analysis("frames", ["C07.f", "C07.g", "C07.i", "C07.w"])
+rule("C07.ae", "what is written into a column of a mapping is positional (an array, a list, a scalar) or a Series that carries the frame's own "
+               "index: the index of a mapping enumerates variables and may repeat, so a freshly made Series (default 0..n-1 index) assigned to a "
+               "column is aligned by *label* - row k receives the value of the row whose position equals its variable number", floor=0,
+     props=["C07", "C01", "C14"])
+rule("C07.af", "frames that describe variables are put together with their labels kept: pd.concat(..., ignore_index=True) on mapping frames "
+               "replaces the variable numbers by row positions (the same as reset_index(drop=True), C07.e) - with several rows per variable the "
+               "index no longer enumerates variables", floor=0, props=["C07", "C15", "C14"])
+
+
+@analysis("frames", ["C07.f", "C07.g", "C07.i", "C07.w", "C07.ae", "C07.af"])
 def run(ctx):
+    _series_alignment(ctx)
     p = ctx.p
     # ================================================================= C07.f
     n_shrink = 0
